@@ -24,22 +24,6 @@ Arguments concat : simpl never.
 
 Local Open Scope Z_scope.
 
-(* the prelude closures behind `$+` / `$*`, with the signatures their sources declare *)
-Definition sig_fun (W : sty) (fid : nat) (ps : list ty) (r : ty) : Prop :=
-  nth_error (funs_t W) fid = Some (Some (ps, r)).
-
-Definition prelude_ok (pre : prelude) (W : sty) : Prop :=
-  sig_fun W (p_int_sum pre) [IT_INT] TInt /\
-  sig_fun W (p_float_sum pre) [IT_FLOAT] TFloat /\
-  sig_fun W (p_string_sum pre) [IT_STRING] TString /\
-  sig_fun W (p_int_product pre) [IT_INT] TInt /\
-  sig_fun W (p_float_product pre) [IT_FLOAT] TFloat.
-
-Lemma prelude_ok_mono pre W W' : ext W W' -> prelude_ok pre W -> prelude_ok pre W'.
-Proof.
-  intros [_ E] [A [B [C [D F]]]]. unfold prelude_ok, sig_fun in *. repeat split; apply E; assumption.
-Qed.
-
 Definition W_fun (W : sty) (sg : list ty * ty) : sty := mkW (cells_t W) (funs_t W ++ [Some sg]).
 
 Lemma ext_fun W sg : ext W (W_fun W sg).
@@ -109,7 +93,7 @@ Definition recreate_ok (W0 : sty) (G : genv) (nm : option name) (ps : params)
 (* the policy is sound for the pass: on a literal it accepts, and that satisfies the other
    premises of the closure-creation rules, the pass behaves *)
 Definition policy_ok : Prop :=
-  (forall W0 G nm ps body r G' Ts,
+  forall W0 G nm ps body r G' Ts,
     closure_ok W0 G nm ps body r ->
     wf_ty (TFun (map snd ps) r) = true ->
     match nm with
@@ -118,10 +102,7 @@ Definition policy_ok : Prop :=
     end ->
     typed_list W0 (closure_env nm ps r ++ G) (mkK false (Some r)) body G' Ts ->
     (matches TVoid r = true \/ In TNever Ts) ->
-    recreate_ok W0 G nm ps body r) /\
-  (* ... and where it allows the iterator operators, the store typing of the constants
-     records the prelude closures *)
-  (forall W0 G i, iter_gate W0 G i -> prelude_ok pre W0).
+    recreate_ok W0 G nm ps body r.
 
 (* storing the recreated body *)
 Lemma closure_alloc_sound W st nm ps body' r G'' Ts' :
@@ -159,7 +140,7 @@ Qed.
 Lemma fndecl_sound (Hpol : policy_ok) : forall n, fndecl_sound_at powf pre n.
 Proof.
   intros n W0 G K nm ps body r G' Ts Hok Wf Hnm Hb Hend W st sc HC.
-  pose proof (proj1 Hpol _ _ _ _ _ _ _ _ Hok Wf Hnm Hb Hend) as Hrec.
+  pose proof (Hpol _ _ _ _ _ _ _ _ Hok Wf Hnm Hb Hend) as Hrec.
   destruct n as [|n].
   - rewrite exec_O. exists W. split; [apply ext_refl|]. split; [apply (ctx_store _ _ _ _ _ HC)|exact I].
   - rewrite exec_S_IFnDecl.
